@@ -600,6 +600,23 @@ func c06indexArgs(c *an.Ctx, rule string) {
 					}
 				}
 			}
+			// … or the value variable of a range over one of these lists
+			if id, isId := name.(*ast.Ident); isId && !ok {
+				obj := an.ObjOf(info, id)
+				an.InspectOwn(f, func(m ast.Node) bool {
+					if rs, isRange := m.(*ast.RangeStmt); isRange {
+						if v, isV := rs.Value.(*ast.Ident); isV && an.ObjOf(info, v) == obj {
+							switch p.FieldKey(info, rs.X) {
+							case "FieldNode.Ident", "ChainNode.Field":
+								if len(an.LocalDefs(f, obj)) <= 1 {
+									ok = true
+								}
+							}
+						}
+					}
+					return true
+				})
+			}
 			c.Check(ok, rule, key, call.Pos(), "the member name handed to resolveIndex is \"\" or an identifier of a field/chain node",
 				f.Name+" hands resolveIndex a name ("+an.Str(name)+") that may be empty: resolveIndex takes an empty name for \"no name given\" and looks at the (absent) index value instead, so a[\"\"] fails or yields nothing although the entry exists")
 		}
